@@ -103,6 +103,121 @@ def _walk_caps():
     return rows, values, unguarded
 
 
+READER_NAMES = ("parse", "from_dict", "from_json", "decode", "deserialize", "deserialize_map", "b58decode", "b64decode", "b32decode",
+                "from_script", "from_bytes", "script_from_dict", "op_code_spans")
+
+
+def _recursive_functions():
+    """every function of the package that can call ITSELF, directly or through other functions of its own module:
+    the strongly connected components (with a cycle) of each module's call graph, read off the AST - calls by bare
+    name, by `self.` / `cls.` and by `Class.` to a function defined in the same module.
+    -> [(module, [qualnames], reader-named?, depth guard constant or 0)]   in source order of modules.
+    A reader whose Python stack depth grows with its input is in this table; a reader that is NOT in it is a loop."""
+    import btclib
+    out = []
+    base = os.path.dirname(btclib.__file__)
+    for dp, dn, fns in sorted(os.walk(base)):
+        dn.sort()
+        for f in sorted(fns):
+            if not f.endswith(".py"):
+                continue
+            path = os.path.join(dp, f)
+            mod = "btclib." + os.path.relpath(path, base)[:-3].replace(os.sep, ".")
+            with open(path, encoding="utf8") as fh:
+                tree = ast.parse(fh.read())
+            funcs = {}
+
+            def collect(body, prefix):
+                for n in body:
+                    if isinstance(n, (ast.FunctionDef, ast.AsyncFunctionDef)):
+                        funcs[prefix + n.name] = n
+                        collect(n.body, prefix + n.name + ".")      # nested defs
+                    elif isinstance(n, ast.ClassDef):
+                        collect(n.body, prefix + n.name + ".")
+            collect(tree.body, "")
+            g = {}
+            for q, n in funcs.items():
+                owner = q.rsplit(".", 1)[0] + "." if "." in q else ""
+                tg = set()
+                for c in ast.walk(n):
+                    if not isinstance(c, ast.Call):
+                        continue
+                    fn = c.func
+                    if isinstance(fn, ast.Name):
+                        # a bare name: a def nested in this function, a def of an ENCLOSING FUNCTION (never a method of the
+                        # enclosing class), a module function
+                        cands, parts = [q + "." + fn.id], q.split(".")
+                        for k in range(len(parts) - 1, 0, -1):
+                            if ".".join(parts[:k]) in funcs:
+                                cands.append(".".join(parts[:k]) + "." + fn.id)
+                        for cand in cands + [fn.id]:
+                            if cand in funcs:
+                                tg.add(cand)
+                                break
+                    elif isinstance(fn, ast.Attribute) and isinstance(fn.value, ast.Name):
+                        if fn.value.id in ("self", "cls") and owner + fn.attr in funcs:
+                            tg.add(owner + fn.attr)
+                        elif fn.value.id + "." + fn.attr in funcs:
+                            tg.add(fn.value.id + "." + fn.attr)
+                g[q] = tg
+            # Tarjan, iterative
+            index, low, on, stack, comps, counter = {}, {}, set(), [], [], [0]
+            for root in g:
+                if root in index:
+                    continue
+                work = [(root, iter(sorted(g[root])))]
+                index[root] = low[root] = counter[0]
+                counter[0] += 1
+                stack.append(root)
+                on.add(root)
+                while work:
+                    v, it = work[-1]
+                    adv = False
+                    for w in it:
+                        if w not in index:
+                            index[w] = low[w] = counter[0]
+                            counter[0] += 1
+                            stack.append(w)
+                            on.add(w)
+                            work.append((w, iter(sorted(g[w]))))
+                            adv = True
+                            break
+                        if w in on:
+                            low[v] = min(low[v], index[w])
+                    if adv:
+                        continue
+                    work.pop()
+                    if work:
+                        low[work[-1][0]] = min(low[work[-1][0]], low[v])
+                    if low[v] == index[v]:
+                        comp = []
+                        while True:
+                            w = stack.pop()
+                            on.discard(w)
+                            comp.append(w)
+                            if w == v:
+                                break
+                        if len(comp) > 1 or comp[0] in g[comp[0]]:
+                            comps.append(sorted(comp))
+            m = importlib.import_module(mod) if not any(p.startswith("_") and p != "__init__" for p in mod.split(".")[1:]) else None
+            for comp in sorted(comps):
+                reader = int(any(q.rsplit(".", 1)[-1] in READER_NAMES for q in comp))
+                guard = 0
+                for q in comp:          # `if depth > CONST: raise` inside a member: the constant, evaluated in the module
+                    for c in ast.walk(funcs[q]):
+                        if (isinstance(c, ast.If) and isinstance(c.test, ast.Compare) and len(c.test.ops) == 1
+                                and isinstance(c.test.ops[0], (ast.Gt, ast.GtE)) and isinstance(c.test.left, ast.Name)
+                                and "depth" in c.test.left.id and any(isinstance(x, ast.Raise) for x in c.body) and m is not None):
+                            try:
+                                v = eval(compile(ast.Expression(c.test.comparators[0]), "<guard>", "eval"), vars(m))
+                            except Exception:  # noqa: BLE001 - not a constant
+                                continue
+                            if isinstance(v, int) and not isinstance(v, bool) and v > 0:
+                                guard = v - (1 if isinstance(c.test.ops[0], ast.GtE) else 0)
+                out.append((mod, comp, reader, guard))
+    return out
+
+
 def constants():
     from btclib import consensus, var_int
     from btclib.block import limits as bl
@@ -173,6 +288,20 @@ def constants():
     t += ("/-- sites of `var_int.parse(stream)` bounded by the default cap `MAX_SIZE` only (lengths handed to\n"
           "    `read_exactly`, which refuses a short read, and counts of items of at least one byte) -/\n"
           "def defaultCapSites : List String := [" + ", ".join(f'"{u}"' for u in unguarded) + "]\n")
+    rec = _recursive_functions()
+    t += ("/-- every function of the package that can call itself, directly or through functions of its own module (the cyclic\n"
+          "    strongly connected components of each module's AST call graph): (module: members, 1 if a member is named like a\n"
+          "    reader - parse / from_dict / decode / deserialize / from_script … - else 0, the constant of a\n"
+          "    `if depth > CONST: raise` guard inside a member, 0 if there is none).  A reader that is NOT here is a loop: its\n"
+          "    Python stack depth does not grow with its input. -/\n"
+          "def recursiveFunctions : List (String × Nat × Nat) := [\n  "
+          + ",\n  ".join(f'("{mod}: {" ".join(comp)}", {reader}, {guard})' for mod, comp, reader, guard in rec) + "]\n")
+    t += ("/-- how many of them are guarded by a depth constant, the guard constant of the recursion under `script.taproot.tree_helper`\n"
+          "    (`tree_helper` itself or `_subtree_helper`; 0 = no guard) and of `descriptors._parse_tree` -/\n"
+          f"def recursiveGuarded : Nat := {sum(1 for r in rec if r[3])}\n"
+          f"def treeHelperGuard : Nat := {next((r[3] for r in rec if r[0] == 'btclib.script.taproot' and ('tree_helper' in r[1] or '_subtree_helper' in r[1])), 0)}\n"
+          f"def treeHelperIsRecursive : Bool := {'true' if any(r[0] == 'btclib.script.taproot' and ('tree_helper' in r[1] or '_subtree_helper' in r[1]) for r in rec) else 'false'}\n"
+          f"def parseTreeGuard : Nat := {next((r[3] for r in rec if r[0] == 'btclib.descriptors.descriptors' and '_parse_tree' in r[1]), 0)}\n")
     return t
 
 
